@@ -92,6 +92,8 @@ class ManagerRig:
         self.sc = scenario
         self.loop = new_loop()
         self.clock = clockshim.Clock(self.loop)
+        if self.sc.get("dst"):
+            self.clock.dst = (float(self.sc["dst"]["at"]), float(self.sc["dst"]["sec"]))
         self._undo_clock, self.clock_names = clockshim.install(mc, self.clock)
         self.events: list = []
         self.violations: list = []
